@@ -128,6 +128,10 @@ pub trait Sch: Sized + 'static {
     fn plus_one(p: &Self::P) -> Self::P;
     /// a*p + b*q
     fn lincomb(a: Self::F, p: &Self::P, b: Self::F, q: &Self::P) -> Self::P;
+    /// p with its first two variables exchanged (multilinear / multivariate families)
+    fn swap_vars(_p: &Self::P) -> Option<Self::P> {
+        None
+    }
 }
 
 pub struct Keys<S: Sch> {
@@ -474,6 +478,18 @@ macro_rules! ml_common {
         fn degree(_p: &Self::P) -> usize {
             1
         }
+        fn swap_vars(p: &Self::P) -> Option<Self::P> {
+            if p.num_vars < 2 {
+                return None;
+            }
+            let ev: Vec<$F> = (0..p.evaluations.len())
+                .map(|i| {
+                    let (b0, b1) = (i & 1, (i >> 1) & 1);
+                    p.evaluations[(i & !3) | (b0 << 1) | b1]
+                })
+                .collect();
+            Some(MLE::<$F>::from_evaluations_vec(p.num_vars, ev))
+        }
     };
 }
 
@@ -717,6 +733,20 @@ impl Sch for SPst {
         r += (a, p);
         r += (b, q);
         r
+    }
+    fn swap_vars(p: &Self::P) -> Option<Self::P> {
+        if p.num_vars < 2 {
+            return None;
+        }
+        let terms: Vec<(Fr381, SparseTerm)> = p
+            .terms()
+            .iter()
+            .map(|(c, t)| {
+                let vars: Vec<(usize, usize)> = t.vars().iter().zip(t.powers().iter()).map(|(v, e)| (if *v == 0 { 1 } else if *v == 1 { 0 } else { *v }, *e)).collect();
+                (*c, SparseTerm::new(vars))
+            })
+            .collect();
+        Some(MVP::<Fr381>::from_coefficients_vec(p.num_vars, terms))
     }
 }
 
